@@ -1,5 +1,178 @@
-/- Oracle driver for C15 (stub: replaced when the property's model is built). -/
-import Golem.Driver.Util
+/-
+Oracle for C15: runs `Golem.Model.PairIter.eval` / `evalForEach` (the definitions `Props/C15` is
+about) on mixed pair/seq expression-tree case lines.
+
+case line:  `<errAt> <S|P> <expr>`      S: the expression is a seq.Seq[int], P: a pair.Seq[int,int]
+seq expr:   the C14 grammar (F S TW DW FI MP PL JN) plus
+            TS <pexpr> <sbody>           pair.ToSeq; the body sees $0 = key, $1 = value
+pair expr:  PF <tk> <tv>                 pair.From
+            PTW|PDW|PFI <p2> <pexpr>     pair.TakeWhile / DropWhile / Filter
+            PMP <m2> <pexpr>             pair.Map
+            PPL <pexpr> <pexpr>          pair.Plus
+            PJN <pexpr> <pbody>          pair.Join; the body sees $0 = key, $1 = value
+            FS <sexpr> <pbody>           pair.FromSeq; the body sees $0 = element
+pred2 <p2>: klt:<c> kge:<c> vlt:<c> vge:<c> keven kodd veven vodd kltv sumlt:<c> T N knev:<i> vltv:<i>
+map2  <m2>: subk (v-k) kx10 (10k+v) vinc (v+1) onlyk (k) addv:<i> (v+env i)
+result:     `<drained>|<visited>|<err>`, pair elements printed `k:v`
+-/
+import Golem.Model.PairIter
+import Golem.Driver.C14
 namespace Golem.Driver.C15
-def main : IO Unit := IO.eprintln "oracle: no driver for C15 yet"
+open Golem.Model.PairIter Golem.Driver
+open Golem.Driver.C14 (Term Pred Mp Env parseTerm parsePred parseMp parseTerms splitColon showErr)
+
+inductive Pred2 where
+  | klt (c : Int) | kge (c : Int) | vlt (c : Int) | vge (c : Int) | keven | kodd | veven | vodd
+  | kltv | sumlt (c : Int) | tt | ff | knev (i : Nat) | vltv (i : Nat)
+
+inductive Mp2 where
+  | subk | kx10 | vinc | onlyk | addv (i : Nat)
+
+def Pred2.eval (env : Env) : Pred2 → Int × Int → Bool
+  | .klt c => fun kv => kv.1 < c
+  | .kge c => fun kv => kv.1 ≥ c
+  | .vlt c => fun kv => kv.2 < c
+  | .vge c => fun kv => kv.2 ≥ c
+  | .keven => fun kv => Int.tmod kv.1 2 == 0
+  | .kodd => fun kv => Int.tmod kv.1 2 != 0
+  | .veven => fun kv => Int.tmod kv.2 2 == 0
+  | .vodd => fun kv => Int.tmod kv.2 2 != 0
+  | .kltv => fun kv => kv.1 < kv.2
+  | .sumlt c => fun kv => kv.1 + kv.2 < c
+  | .tt => fun _ => true
+  | .ff => fun _ => false
+  | .knev i => fun kv => kv.1 != env.getD i 0
+  | .vltv i => fun kv => kv.2 < env.getD i 0
+
+def Mp2.eval (env : Env) : Mp2 → Int → Int → Int
+  | .subk => fun k v => v - k
+  | .kx10 => fun k v => 10 * k + v
+  | .vinc => fun _ v => v + 1
+  | .onlyk => fun k _ => k
+  | .addv i => fun _ v => v + env.getD i 0
+
+mutual
+inductive SynS where
+  | from (t : Term)
+  | slice (ts : List Term)
+  | tw (p : Pred) (e : SynS)
+  | dw (p : Pred) (e : SynS)
+  | fi (p : Pred) (e : SynS)
+  | mp (m : Mp) (e : SynS)
+  | pl (a b : SynS)
+  | jn (e body : SynS)
+  | ts (e : SynP) (body : SynS)
+inductive SynP where
+  | pf (k v : Term)
+  | ptw (p : Pred2) (e : SynP)
+  | pdw (p : Pred2) (e : SynP)
+  | pfi (p : Pred2) (e : SynP)
+  | pmp (m : Mp2) (e : SynP)
+  | ppl (a b : SynP)
+  | pjn (e body : SynP)
+  | fs (e : SynS) (body : SynP)
+end
+
+mutual
+def toExS (env : Env) : SynS → Ex (.s Int)
+  | .from t => .from (t.eval env)
+  | .slice ts => .fromSlice (ts.map (Term.eval env))
+  | .tw p e => .takeWhile (toExS env e) (p.eval env)
+  | .dw p e => .dropWhile (toExS env e) (p.eval env)
+  | .fi p e => .filter (toExS env e) (p.eval env)
+  | .mp m e => .map (toExS env e) (m.eval env)
+  | .pl a b => .plus (toExS env a) (toExS env b)
+  | .jn e body => .join (sa := .s Int) (toExS env e) (fun x => toExS (x :: env) body)
+  | .ts e body => .join (sa := .p Int Int) (toExP env e) (fun kv => toExS (kv.1 :: kv.2 :: env) body)
+def toExP (env : Env) : SynP → Ex (.p Int Int)
+  | .pf k v => .pfrom (k.eval env) (v.eval env)
+  | .ptw p e => .takeWhile (toExP env e) (p.eval env)
+  | .pdw p e => .dropWhile (toExP env e) (p.eval env)
+  | .pfi p e => .filter (toExP env e) (p.eval env)
+  | .pmp m e => .pmap (toExP env e) (m.eval env)
+  | .ppl a b => .plus (toExP env a) (toExP env b)
+  | .pjn e body => .join (sa := .p Int Int) (toExP env e) (fun kv => toExP (kv.1 :: kv.2 :: env) body)
+  | .fs e body => .join (sa := .s Int) (toExS env e) (fun x => toExP (x :: env) body)
+end
+
+def parsePred2 (s : String) : Option Pred2 :=
+  match splitColon s with
+  | ("klt", some c) => c.toInt?.map .klt
+  | ("kge", some c) => c.toInt?.map .kge
+  | ("vlt", some c) => c.toInt?.map .vlt
+  | ("vge", some c) => c.toInt?.map .vge
+  | ("sumlt", some c) => c.toInt?.map .sumlt
+  | ("knev", some i) => i.toNat?.map .knev
+  | ("vltv", some i) => i.toNat?.map .vltv
+  | ("keven", none) => some .keven
+  | ("kodd", none) => some .kodd
+  | ("veven", none) => some .veven
+  | ("vodd", none) => some .vodd
+  | ("kltv", none) => some .kltv
+  | ("T", none) => some .tt
+  | ("N", none) => some .ff
+  | _ => none
+
+def parseMp2 (s : String) : Option Mp2 :=
+  match splitColon s with
+  | ("subk", none) => some .subk
+  | ("kx10", none) => some .kx10
+  | ("vinc", none) => some .vinc
+  | ("onlyk", none) => some .onlyk
+  | ("addv", some i) => i.toNat?.map .addv
+  | _ => none
+
+mutual
+partial def parseS : List String → Option (SynS × List String)
+  | "F" :: t :: rest => do pure (.from (← parseTerm t), rest)
+  | "S" :: n :: rest => do
+    let (ts, rest) ← parseTerms (← n.toNat?) rest
+    pure (.slice ts, rest)
+  | "TW" :: p :: rest => do let p ← parsePred p; let (e, rest) ← parseS rest; pure (.tw p e, rest)
+  | "DW" :: p :: rest => do let p ← parsePred p; let (e, rest) ← parseS rest; pure (.dw p e, rest)
+  | "FI" :: p :: rest => do let p ← parsePred p; let (e, rest) ← parseS rest; pure (.fi p e, rest)
+  | "MP" :: m :: rest => do let m ← parseMp m; let (e, rest) ← parseS rest; pure (.mp m e, rest)
+  | "PL" :: rest => do let (a, rest) ← parseS rest; let (b, rest) ← parseS rest; pure (.pl a b, rest)
+  | "JN" :: rest => do let (a, rest) ← parseS rest; let (b, rest) ← parseS rest; pure (.jn a b, rest)
+  | "TS" :: rest => do let (a, rest) ← parseP rest; let (b, rest) ← parseS rest; pure (.ts a b, rest)
+  | _ => none
+partial def parseP : List String → Option (SynP × List String)
+  | "PF" :: k :: v :: rest => do pure (.pf (← parseTerm k) (← parseTerm v), rest)
+  | "PTW" :: p :: rest => do let p ← parsePred2 p; let (e, rest) ← parseP rest; pure (.ptw p e, rest)
+  | "PDW" :: p :: rest => do let p ← parsePred2 p; let (e, rest) ← parseP rest; pure (.pdw p e, rest)
+  | "PFI" :: p :: rest => do let p ← parsePred2 p; let (e, rest) ← parseP rest; pure (.pfi p e, rest)
+  | "PMP" :: m :: rest => do let m ← parseMp2 m; let (e, rest) ← parseP rest; pure (.pmp m e, rest)
+  | "PPL" :: rest => do let (a, rest) ← parseP rest; let (b, rest) ← parseP rest; pure (.ppl a b, rest)
+  | "PJN" :: rest => do let (a, rest) ← parseP rest; let (b, rest) ← parseP rest; pure (.pjn a b, rest)
+  | "FS" :: rest => do let (a, rest) ← parseS rest; let (b, rest) ← parseP rest; pure (.fs a b, rest)
+  | _ => none
+end
+
+def showPairs (l : List (Int × Int)) : String := " ".intercalate (l.map fun kv => s!"{kv.1}:{kv.2}")
+
+/-- Generic driver: drain + ForEach (callback failing at visit `errAt`) on one expression. -/
+def runEx {sg : Sig} (e : Ex sg) (shw : List (Elem sg) → String) (errAt : Int) : String :=
+  let d := match eval e with
+    | .ok l => shw l
+    | .error x => showErr x
+  let cb : (Nat × List (Elem sg)) → Elem sg → (Nat × List (Elem sg)) × Option Nat :=
+    fun (n, log) v => ((n + 1, log ++ [v]), if (n : Int) = errAt then some n else none)
+  let f := match evalForEach e cb (0, []) with
+    | .ok ((_, log), err) => shw log ++ "|" ++ (match err with | some i => s!"E{i}" | none => "-")
+    | .error x => showErr x
+  d ++ "|" ++ f
+
+def step (line : String) : String :=
+  match words line with
+  | errAt :: "S" :: toks =>
+    match errAt.toInt?, parseS toks with
+    | some errAt, some (syn, []) => runEx (toExS [] syn) showInts errAt
+    | _, _ => "bad-case"
+  | errAt :: "P" :: toks =>
+    match errAt.toInt?, parseP toks with
+    | some errAt, some (syn, []) => runEx (toExP [] syn) showPairs errAt
+    | _, _ => "bad-case"
+  | _ => "bad-case"
+
+def main : IO Unit := eachLine step
 end Golem.Driver.C15
